@@ -251,3 +251,11 @@ macro_rules! roll_call_to {
 pub fn f64_cells(v: &[f64]) -> Vec<Cell> {
     v.iter().map(|x| if *x == -7.77e77 { Cell::Uninit } else { Cell::F(*x) }).collect()
 }
+
+/// (kept here because `tevec::prelude` shadows Iterator::any in the binaries)
+pub fn has_panic(c: &[Cell]) -> bool {
+    c.iter().any(|x| matches!(x, Cell::Panic(_)))
+}
+pub fn max_abs(v: &[f64], init: f64) -> f64 {
+    v.iter().filter(|x| !x.is_nan()).fold(init, |m, x| m.max(x.abs()))
+}
